@@ -114,8 +114,7 @@ func (b *ByteWrap[T]) UnmarshalCBORStream(r io.Reader, o DecoderOptions, flatten
 	r = io.LimitReader(r, int64(n))
 
 	if bs, ok := any(&b.Val).(*[]byte); ok {
-		*bs = make([]byte, n)
-		_, err := io.ReadFull(r, *bs)
+		*bs, err = readBytes(r, int(n))
 		return err
 	}
 
@@ -158,8 +157,8 @@ func (c *X509Certificate) UnmarshalCBORStream(r io.Reader, o DecoderOptions, fla
 	if n >= MaxArrayDecodeLength {
 		return fmt.Errorf("certificate byte string exceeds max size: %d", n)
 	}
-	der := make([]byte, n)
-	if _, err := io.ReadFull(r, der); err != nil {
+	der, err := readBytes(r, int(n))
+	if err != nil {
 		return err
 	}
 	cert, err := x509.ParseCertificate(der)
@@ -201,8 +200,8 @@ func (c *X509CertificateRequest) UnmarshalCBORStream(r io.Reader, o DecoderOptio
 	if n >= MaxArrayDecodeLength {
 		return fmt.Errorf("certificate request byte string exceeds max size: %d", n)
 	}
-	der := make([]byte, n)
-	if _, err := io.ReadFull(r, der); err != nil {
+	der, err := readBytes(r, int(n))
+	if err != nil {
 		return err
 	}
 	csr, err := x509.ParseCertificateRequest(der)
